@@ -16,10 +16,10 @@ const ruleDECIDEText = "decision-table equivalence: the verdict predicates touch
 
 // concrete mini-interpreter for loop-free functions over ints/bools/structs.
 type cval struct {
-	isBool bool
-	b      bool
-	i      int64
-	fields map[string]cval // struct
+	isBool   bool
+	b        bool
+	i        int64
+	fields   map[string]cval // struct
 	isStruct bool
 }
 
@@ -212,7 +212,9 @@ type predicateSpec struct {
 
 var predicateSpecs = []predicateSpec{
 	{"(par2.ShardCounts).RepairNeeded", []string{"UsableDataShardCount", "UnusableDataShardCount", "MisplacedDataFileCount", "UsableParityShardCount", "UnusableParityShardCount"},
-		func(f map[string]int64) bool { return f["UnusableDataShardCount"] > 0 || f["MisplacedDataFileCount"] > 0 },
+		func(f map[string]int64) bool {
+			return f["UnusableDataShardCount"] > 0 || f["MisplacedDataFileCount"] > 0
+		},
 		"needed <=> UnusableDataShardCount > 0 || MisplacedDataFileCount > 0"},
 	{"(par2.ShardCounts).RepairPossible", []string{"UsableDataShardCount", "UnusableDataShardCount", "MisplacedDataFileCount", "UsableParityShardCount", "UnusableParityShardCount"},
 		func(f map[string]int64) bool { return f["UsableParityShardCount"] >= f["UnusableDataShardCount"] },
@@ -224,7 +226,9 @@ var predicateSpecs = []predicateSpec{
 		func(f map[string]int64) bool { return f["UsableParityFileCount"] >= f["UnusableDataFileCount"] },
 		"possible <=> UsableParityFileCount >= UnusableDataFileCount"},
 	{"(par1.FileCounts).AllFilesUsable", []string{"UsableDataFileCount", "UnusableDataFileCount", "UsableParityFileCount", "UnusableParityFileCount"},
-		func(f map[string]int64) bool { return f["UnusableDataFileCount"] == 0 && f["UnusableParityFileCount"] == 0 },
+		func(f map[string]int64) bool {
+			return f["UnusableDataFileCount"] == 0 && f["UnusableParityFileCount"] == 0
+		},
 		"all usable <=> UnusableDataFileCount == 0 && UnusableParityFileCount == 0"},
 }
 
